@@ -128,6 +128,7 @@ def build_harness(prop, task, contracts):
     h.task = task
     h.fn_key = fn.key
     h.notes = fn.notes
+    h.gen = g
     return h
 
 
@@ -216,6 +217,10 @@ def main():
     for h in harnesses:
         if args.obl:
             h.obligations = [o for o in h.obligations if re.search(args.obl, o.oid) or o.kind == 'reach']
+        flt = getattr(getattr(h, 'task', None), 'obligation_filter', None)
+        if flt:
+            # a property whose own obligations are a named subset of another property's harness (stated in its level text)
+            h.obligations = [o for o in h.obligations if re.search(flt, o.oid) or o.kind == 'reach']
         if h.frame_problems:
             frame_fail.append((h, h.frame_problems))
         fl = discharge.run_harness(h, workdir, timeout=timeout, pool=pool)
